@@ -75,11 +75,12 @@ pub fn run(seed: u64, thorough: bool, out_dir: &std::path::Path) -> Out {
     let mut rng = Rng::new(seed ^ 0xC01);
     let mut out = Out { viol: vec![], evaluations: 0, distinct: BTreeSet::new(), stats: BTreeMap::new(), samples: vec![] };
     let shards = 8usize;
-    let header = "From CKB Require Import Chain.ForkChoice.";
+    let header = "From CKB Require Import Chain.ForkChoice Chain.Broker.";
     let mut files: Vec<CaseFile> = (0..shards)
         .map(|i| {
             let mut cf = CaseFile::new(out_dir, &format!("cases_{:02}", i), header);
             cf.group("sched", "fcase", "check_fcase");
+            cf.group("broker", "bcase", "check_bcase");
             cf
         })
         .collect();
@@ -282,7 +283,15 @@ pub fn run(seed: u64, thorough: bool, out_dir: &std::path::Path) -> Out {
                     d["observed"] = json!(obs.iter().map(|(t, o)| json!({"tip_td": t.to_string(), "orphans": o})).collect::<Vec<_>>());
                     d["final_tip"] = json!(final_tip);
                     if out.samples.len() < 2 && ti > 0 { out.samples.push(d.clone()); }
-                    descs[sh].entry("sched".into()).or_default().push(d);
+                    descs[sh].entry("sched".into()).or_default().push(d.clone());
+                    // the delivery layer alone: per delivered block whether it reaches the orphan broker and the
+                    // size of the orphan pool at quiescence (Chain/Broker.v recomputes the sizes)
+                    let steps: Vec<String> = sched.iter().zip(obs.iter()).map(|(id, (_, o))| {
+                        let nd = tree.node(*id);
+                        format!("(mkBB {} {} {} false false, {}, {})", coq_n(nd.id as u128), coq_n(nd.parent as u128), coq_bool(nd.kind == Kind::Valid), coq_bool(nd.kind != Kind::BadTxRoot), coq_nat(*o))
+                    }).collect();
+                    files[sh].push(1, format!("mkBCase {}", coq_list(&steps, |x| x.clone())));
+                    descs[sh].entry("broker".into()).or_default().push(d);
                     case_no += 1;
                 }
             }
